@@ -320,6 +320,17 @@ theorem consume_mul {α : Type} [Inhabited α] [Add α] [Mul α] [Zero α] (e : 
       (e.size.1 - 1) (by show e.size.1 = _; omega) (by show e.size.1 = _; omega) _ _ hB hA
     exact ⟨M, hM, hr, hc, fun i k hi hk => hget i k hi hk⟩
 
+/-- Non-vacuity of the operator theorems: the 1×2 leaf holding its offsets `[0, 1]` is a
+    non-empty stack; `A·Aᵀ` is the 1×1 matrix `[0·0 + 1·1]`, `Aᵀ·A` has entry `(1,1)` equal to 1,
+    and the doubled elements are `[0, 2]`. -/
+example : 1 ≤ (MExpr.leaf 1 2).size.1 ∧ 1 ≤ (MExpr.leaf 1 2).size.2 ∧
+    EasyMl.Arith.leftSum (fun p => (MExpr.leaf 1 2).elemAt (fun o => (o : Int)) 0 p *
+      (MExpr.leaf 1 2).elemAt (fun o => (o : Int)) 0 p) ((MExpr.leaf 1 2).size.2 - 1) = 1 ∧
+    EasyMl.Arith.leftSum (fun p => (MExpr.leaf 1 2).elemAt (fun o => (o : Int)) p 1 *
+      (MExpr.leaf 1 2).elemAt (fun o => (o : Int)) p 1) ((MExpr.leaf 1 2).size.1 - 1) = 1 ∧
+    ((MExpr.leaf 1 2).rowMajorElements (fun o => (o : Int))).map (fun a => a + a) = [0, 2] := by
+  refine ⟨by decide, by decide, by decide, by decide, by decide⟩
+
 /-- `consume diag`: the diagonal iterator (C09's model, reference flavour) over a view stack
     yields at call `k` the cell of index `(k, k)` while `k < min rows columns`, then `None`; never
     a panic; the elements so enumerated are `MExpr.diagonalElements`. -/
